@@ -2,6 +2,7 @@
 import json
 import os
 import re
+import subprocess
 
 import checklib
 
@@ -19,14 +20,17 @@ RULE = ("a case = 1..4 cascade plans run concurrently on one real engine.Process
         "from inside rule actions; skipped and zero-rule child events; failing rules at any position; blocking actions; nested waits "
         "(AddEventAndWait / addEventAndWait inside an action, workers >= nested waits + 1); detached events (nil monitor, new root "
         "monitor, ECAL scope argument, ECAL addEvent inside a for loop / a user function of the sink); ECAL sinks ending in return; "
+        "events sharing name and kind with one rule serving both (every event carries a state id; two-segment kinds); "
+        "AddEventAndWait(ev, nil); one cascade with 300 failing children; thorough: an action parked for 2.2 s; "
         "AddEventAndWait or AddEvent+finish handler, with/without finish handler and error observer (which polls AllErrors()). "
         "Schedule modes: random yields/sleeps at the hook points; directed: hold a failing task between SetErrors and Finish until "
         "another task's error observer called AllErrors; hold the adder after pool.AddTask until the cascade posted; hold a finisher "
         "inside the root lock with one monitor outstanding, the zero-seer before PostEvent, a non-last finisher after Unlock; PCT "
         "priorities. Tiny plans (<=3 events, <=2 workers) are explored exhaustively on the transition system and run 24x each. "
         "Compared with the model per root monitor (unit), sampled at the unit's own return: wait returned, action completion stamps "
-        "later than the return, finish handler count, IsFinished of every monitor handed to AddEvent, AllErrors() as a sorted list of "
-        "(event node, rule, error class), entries of another cascade, nil entries seen by the error observer, number of completed "
+        "later than the return, finish handler count and IsFinished of every monitor handed to AddEvent (Go API mode only; ECAL mode "
+        "prints handler=- fin=-), AllErrors() as a sorted list of (event node by state id, rule, error class; name, kind and event "
+        "path of the entry must be those of its event), entries of another cascade, nil entries seen by the error observer, number of completed "
         "actions of detached cascades, units that must not start; a process death is CRASH, a wait that does not return is a hang. "
         "Non-trivial = some cascade has >=3 events and a failing rule.")
 
@@ -46,6 +50,7 @@ SPEC = dict(
         "NewChildMonitor on a monitor is only called by an action executing under that monitor (what the ECAL addEvent builtin and the harness do); the method is public and unguarded in Go: a monitor reference used after its action returned is outside the model (the model's newChild is not enabled then). Probed on every run (evidence limitation_probes.late_child.*): the late event runs, the message is posted a second time, the handler is not called again and the error report grows after the wait returned",
         "the processor is running while the cascade is in flight: AddEvent on a stopping/stopped pool returns an error, the child monitor created for it is never finished and an enclosing wait never returns (func_provider.go addEvent path) — excluded; probed on every run (evidence limitation_probes.stopping_pool.*)",
         "'the wait does return' is proved as wait_returns_fair over infinite executions of the shared system under explicit hypotheses: Exec.Fair (whenever an engine step is enabled an engine step is eventually taken: Go scheduler + pool liveness C09, assumed), Exec.AddsStopAt (the actions make finitely many NewChildMonitor/AddEvent calls), every created monitor handed to AddEvent, >= 1 worker",
+        "DECLARED READING: a root event that does not trigger (AddEvent returns nil; engine.md: 'discarded right away') starts no cascade: AddEventAndWait returns at once, the root monitor ends finished, the finished message is posted to nobody and a finish handler set on that monitor is NOT called (0 calls is in the statement of finish_notification_exactly_once); the doc comment of SetFinishHandler read literally would ask for a call",
         "a rule action calling AddEventAndWait occupies its worker while it waits: with workers <= simultaneous nested waits the processor deadlocks by design (not generated; limitation)",
         "ECAL: addEvent executed inside a for loop, inside a user function called by the sink, or inside a call argument runs with a FRESH instance state (rt_statements.go loopRuntime.Eval, rt_func.go, rt_identifier.go) and therefore starts a NEW root monitor: such events are not 'added under the monitor' of the sink's event; an enclosing addEventAndWait neither waits for them nor reports their errors (confirmed by the harness, modelled as detached cascades). The property as stated does not cover them; a user reading 'use addEvent for event cascades' may expect otherwise",
     ],
@@ -72,9 +77,15 @@ META = dict(
                 "shared system (Exec.Fair: an enabled engine step is eventually followed by an engine step; hypothesis) in which the "
                 "program stops adding work, a state is reached where every waiter is released with an exact report and every handler "
                 "ran once."),
-    level_note=("A change that moves the zero test of descendantFinished out of the critical section (read directly after Unlock, "
-                "before any hook point) cannot be forced by a hook-point scheduler; it is caught deterministically, hook-free, by the "
-                "regenerated source fact zeroTestInsideCriticalSection (go/ast, every run) and only probabilistically by traces/crashes. "
+    level_note=("A change that moves the zero test of descendantFinished out of the critical section of its decrement (read after Unlock, "
+                "or in a second critical section) cannot be forced by a hook-point scheduler; it is refuted deterministically, hook-free, "
+                "by the regenerated facts zeroTestInsideCriticalSection / zeroTestInCriticalSectionOfTheDecrement (go/ast, every run) "
+                "and only probabilistically by traces/crashes. Facts are three-valued: only `some false` breaks an obligation, `none` "
+                "is a note + 4 more case sets. ECAL-mode cases (about 5 %) compare neither the handler count nor IsFinished (the root "
+                "monitor lives inside the builtin): they print handler=- fin=-; their report entries are compared by state id, name, "
+                "kind, rule and error class. A single stuck wait of a run that returns when the case is run alone and in 100 "
+                "repetitions is forgiven (note in the evidence): a lost notification rarer than that passes. A wait with a time-out "
+                "longer than the parked action of the thorough tier (2.2 s) is caught only by the fact waitIsUnconditional. "
                 "Trusted: Lean kernel + propext/Classical.choice/Quot.sound; the go/ast fact extractor; the hook call sites; Go memory "
                 "model not modelled (-race run in the thorough tier); liveness only under the stated fairness assumption (full statement "
                 "in the comment at wait_returns_partial); NewChildMonitor outside an action, AddEvent on a stopping pool, nested waits "
@@ -177,6 +188,27 @@ def read_facts():
     return out
 
 
+def amplify(ctx, binp, shards):
+    """four more quick-sized case sets (other seeds), observables only"""
+    extra = 0
+    for k in range(1, 5):
+        sub = checklib.Ctx("C02", "quick", ctx.seed + 7919 * k)
+        try:
+            c2, g2, _, _ = checklib.run_cases(sub, binp, "C02", shards=shards, budget_s=900)
+            m2 = checklib.run_driver(sub, "C02", c2, shards=shards)
+            extra += len(c2)
+            for i in sorted(c2):
+                g = g2.get(i, "MISSING-RESULT").split(" ~ ")[0]
+                if g != m2.get(i, ("MISSING", {}))[0]:
+                    rp = checklib.write_replay(ctx, "input", {"payload": c2[i], "readable": decode(c2[i])},
+                                               m2.get(i, ("MISSING", {}))[0], g, "./check C02 --replay <this file>", tag="amp")
+                    checklib.violation(ctx, rp, f"(amplified search) go={g[:100]!r}")
+                    return
+        finally:
+            sub.cleanup()
+    ctx.coverage["amplified_search_cases"] = extra
+
+
 def run(ctx):
     thorough = ctx.tier == "thorough"
     ctx.log("go: building harness against", checklib.REPO)
@@ -199,6 +231,8 @@ def run(ctx):
     if proof_broken:
         ctx.log("LEAN FAILURES:", lres["failures"])
     cov["source_facts"] = read_facts()
+    not_established = sorted(k for k, v in cov["source_facts"].items() if v == "none")
+    cov["source_facts_not_established"] = not_established
     cov["limitation_probes"] = probes(ctx, binp)
     shards = SPEC["shards"]
     cases, gores, stats, infos = checklib.run_cases(ctx, binp, "C02", shards=shards, budget_s=3000 if thorough else 600)
@@ -241,12 +275,33 @@ def run(ctx):
             gores[idx] = "CRASH " + o[:300]
             kept += forgiven
         else:
-            ctx.notes.append("one wait was declared stuck under load and returned when the case was run alone: " + o[:300])
+            # before a single stuck wait is forgiven the case is repeated 100 times alone (same plan, same schedule seed)
+            again = 0
+            for _ in range(100):
+                try:
+                    pr = subprocess.run([binp, "C02", "-one", cases[idx]], cwd=ctx.work, env=checklib.GOENV, stdout=subprocess.PIPE,
+                                        stderr=subprocess.DEVNULL, text=True, timeout=120)
+                    if pr.returncode != 0 or not pr.stdout.startswith("ret="):
+                        again += 1
+                        break
+                except subprocess.TimeoutExpired:
+                    again += 1
+                    break
+            if again:
+                gores[idx] = "CRASH " + o[:300]
+                kept += 1
+            else:
+                ctx.notes.append("one wait was declared stuck under load; the case returned when run alone and in 100 repetitions: " + o[:300])
     if kept:
         ctx.notes.append(f"{kept} process deaths were not reproduced when the case was run alone; they are still reported")
     if thorough:
         race_run(ctx, shards)
 
+    if not_established:
+        # a fact the extractor can no longer establish is NOT a violation: evidence note + amplified search
+        ctx.notes.append("source facts not established for this tree (extractor cannot follow the code): " + ", ".join(not_established)
+                         + " — search amplified with 4 more case sets")
+        amplify(ctx, binp, shards)
     model = checklib.run_driver(ctx, "C02", cases, shards=shards)
     canon, traces = {}, {}
     for i, g in gores.items():
@@ -360,7 +415,7 @@ def run(ctx):
         # a source fact / theorem does not hold for this tree: reported on its own (deterministic), the
         # failing inputs found by the schedules above (if any) are the VIOLATION lines before this one
         facts = read_facts()
-        broken = {k: v for k, v in facts.items() if v in ("some false", "none")}
+        broken = {k: v for k, v in facts.items() if v == "some false"}
         rp = checklib.write_replay(ctx, "obligation", {"failures": lres["failures"], "source_facts_not_true": broken,
                                                       "theorems": lres["theorems"]},
                                    "all property theorems and source facts check with allowed axioms", "see failures",
